@@ -4,35 +4,66 @@ import json
 KINDS = ["POOL/MAX", "POOL/AVERAGE", "POOL/REDUCE_SUM", "CONV", "DEPTHWISE", "ELEMENTWISE/ADD", "ELEMENTWISE/SUB", "ELEMENTWISE/MUL",
          "ELEMENTWISE/MIN", "ELEMENTWISE/MAX", "ELEMENTWISE/ABS", "ELEMENTWISE/LRELU", "ELEMENTWISE/SHL", "ELEMENTWISE/SHR", "ELEMENTWISE/CLZ"]
 SLICES = ["STRIDED_SLICE", "SPLIT", "SLICE"]
+VAL = ["value_mismatch", "garbage_dependent_output", "gap_uninit_read", "gap_async_uninit_read", "gap_npu_output_not_fully_written", "gap_live_tensor_clobbered"]
 FAM = {
  "F01-softmax-slice-input": dict(
     what="SOFTMAX whose input is a slice view (STRIDED_SLICE/SPLIT output): softmax.py rebuilds its passes from the parent tensor and drops the read offset/shape, so the NPU reads outside the slice (outside the scratch extent / undefined bytes)",
     ctx=dict(requires_layers=["SOFTMAX"], requires_any=SLICES),
-    sigs={"C02": ["out_of_extent"], "C03": ["uninit_read", "foreign_read"], "C04": ["reads_from_divergence", "async_uninit_read", "final_memory_divergence"]}),
+    sigs={"C02": ["out_of_extent"], "C03": ["uninit_read", "foreign_read"], "C04": ["reads_from_divergence", "async_uninit_read", "final_memory_divergence"],
+          "C01": VAL, "C10": VAL}),
  "F02-mean-unit-axis-memcpy": dict(
     what="MEAN over an axis of extent 1 fed by a slice view is lowered to Memcpy (tflite_graph_optimiser.py:2283); dma_feature_map_if_necessary copies the whole parent tensor, overruns the destination / scratch extent and never writes the real output",
     ctx=dict(requires_layers=["MEAN"], requires_any=SLICES),
     sigs={"C02": ["out_of_extent"], "C03": ["npu_output_not_fully_written", "uninit_read"], "C04": ["final_memory_divergence", "reads_from_divergence"]}),
+ "F02b-mean-unit-axis-drops-rescale": dict(
+    what="MEAN over an axis of extent 1 whose output quantisation differs from its input: the operator is turned into Memcpy / bypassed (tflite_graph_optimiser.py:2283) and the requantisation the reference kernel performs is lost (output bytes are the input bytes)",
+    ctx=dict(requires_layers=["MEAN"], max_layers=8),
+    sigs={"C01": ["value_mismatch"], "C10": ["value_mismatch"]}),
  "F03-reshape-folded-into-producer": dict(
     what="an operator followed by RESHAPE whose shapes are recomputed after the reshape was bypassed (LUT activations, 2x-upscaling resize steps): the OFM takes the reshaped shape while the IFM registers still describe the original tensor, so elements beyond IFM_WIDTH0/HEIGHT0 are fetched through the unused tile bases",
     ctx=dict(requires_layers=["RESHAPE"], max_layers=8),
-    sigs={"C02": ["out_of_extent"], "C03": ["uninit_read", "foreign_read"], "C04": ["reads_from_divergence", "async_uninit_read", "async_foreign_read", "final_memory_divergence", "inflight_conflict"]}),
+    sigs={"C02": ["out_of_extent"], "C03": ["uninit_read", "foreign_read"], "C04": ["reads_from_divergence", "async_uninit_read", "async_foreign_read", "final_memory_divergence", "inflight_conflict"],
+          "C01": VAL, "C10": VAL}),
  "F04-resize-bilinear-hpc-blockdep": dict(
     what="RESIZE_BILINEAR with half_pixel_centers: the 2x2 depthwise steps read one row/column more than npu_op.ifm.shape (edge replication through the tile bases); calc_blockdep clips its first-job IFM volume to ifm.shape, misses the overlap with the producer's last OFM block and programs BLOCKDEP too large",
     ctx=dict(requires_layers=["RESIZE_BILINEAR"], max_layers=8, kind_any=["DEPTHWISE"]),
-    sigs={"C04": ["async_uninit_read", "async_foreign_read", "reads_from_divergence"]}),
+    sigs={"C04": ["async_uninit_read", "async_foreign_read", "reads_from_divergence"], "C10": ["gap_async_uninit_read"]}),
  "F13-reduce-sum-blockdep": dict(
     what="calc_blockdep treats REDUCE_SUM as if its IFM depth were traversed in ofm-depth (=1) slices and counts non-existent producer blocks (negative block index) as outstanding jobs: after a single-block producer it programs BLOCKDEP=3 although the second REDUCE_SUM block reads the producer's output (softmax lowering: per-row elementwise ops followed by REDUCE_SUM over all rows)",
     ctx=dict(requires_any=["SOFTMAX"], max_layers=8, kind_any=["POOL/REDUCE_SUM"]),
     sigs={"C04": ["async_uninit_read", "reads_from_divergence"]}),
  "F06-slice-offset-scaled-by-stride": dict(
     what="a strided (stride>1) or padded pool/conv that reads through a fused slice offset: Box.transform_with_strides_and_skirt adds the read offset before multiplying by the stride (high_level_command_stream.py:66-101); the IFM box handed to the register generator is wrong (even zero-sized), addresses and BLOCKDEP derived from it are wrong",
-    ctx=dict(requires_any=SLICES, max_layers=8, kind_any=["POOL/MAX", "POOL/AVERAGE", "CONV", "DEPTHWISE"]),
-    sigs={"C02": ["out_of_extent"], "C03": ["uninit_read", "foreign_read"], "C04": ["reads_from_divergence", "async_uninit_read"]}),
+    ctx=dict(requires_any=SLICES, max_layers=8, kind_any=["POOL/MAX", "POOL/AVERAGE", "CONV", "DEPTHWISE", None]),
+    sigs={"C02": ["out_of_extent"], "C03": ["uninit_read", "foreign_read"], "C04": ["reads_from_divergence", "async_uninit_read"], "C01": VAL, "C10": VAL}),
+ "F15-second-clamp-replaces-first": dict(
+    what="two consecutive clamps (an operator with a fused ReLU-family activation followed by a standalone RELU / RELU6 / RELU_N1_TO_1, or two standalone ones): the later clamp is fused into the producer and replaces the earlier one instead of being intersected with it",
+    ctx=dict(min_count=dict(of=["RELU", "RELU6", "RELU_N1_TO_1", "FUSED_RELU", "FUSED_RELU6", "FUSED_RELU_N1_TO_1"], n=2), max_layers=10),
+    sigs={"C01": ["value_mismatch"], "C10": ["value_mismatch"]}),
+ "F16-relu-after-requantise": dict(
+    what="a ReLU-family operator directly after a QUANTIZE (re-quantisation) operator: the clamp is fused into the rescaling pool operation with ACTIVATION_MIN/MAX computed with the output zero point added twice (e.g. RELU6 on scale 0.1597 zp 25 clamps to [50, 88] instead of [25, 63])",
+    ctx=dict(requires_layers=["QUANTIZE"], requires_any=["RELU", "RELU6", "RELU_N1_TO_1"], max_layers=10),
+    sigs={"C01": ["value_mismatch"], "C10": ["value_mismatch"]}),
+ "F17-cascade-overfetch-clobbers-rolling-buffer": dict(
+    what="a cascaded consumer with stride > 1 (e.g. AVERAGE_POOL 3x3 stride 3 SAME after a striped CONV_2D): the IFM box of a consumer stripe is over-approximated (end*stride + skirt instead of (end-1)*stride + kernel - pad), so producer stripes are issued further ahead than the rolling buffer (sized for the exact need) can hold and a row is overwritten before its last consumer stripe has read it",
+    ctx=dict(requires_layers=["STRIDE_GE2"], max_layers=12),
+    sigs={"C01": ["value_mismatch"], "C10": ["value_mismatch"]}),
+ "F18-relu-after-abs": dict(
+    what="a ReLU-family operator directly after ABS: the clamp is fused into the ABS elementwise operation whose output quantisation is forced to scale 1.0, so ACTIVATION_MAX is computed as 6/1.0 + zero point (e.g. 1) instead of 6/scale + zero point (e.g. 72)",
+    ctx=dict(requires_layers=["ABS"], requires_any=["RELU", "RELU6", "RELU_N1_TO_1"], max_layers=10),
+    sigs={"C01": ["value_mismatch"], "C10": ["value_mismatch"]}),
+ "F11b-mean-over-width-only": dict(
+    what="MEAN over the W axis only of a tensor with H > 1 (same root cause as F11): the depthwise operator it is lowered to has an OFM depth of H*C while weights and scale records exist for C channels only; values are wrong and the scale/weight fetch runs past the encoded range",
+    ctx=dict(requires_layers=["MEAN"], max_layers=12),
+    sigs={"C01": ["weight_stream_malformed", "value_mismatch"], "C10": ["weight_stream_malformed", "value_mismatch"], "C08": ["weight_stream_malformed", "scale_record_count"]}),
+ "F14-relu-after-lut-activation": dict(
+    what="a ReLU-family operator directly after a table-based activation (TANH / LOGISTIC / HARD_SWISH / LEAKY_RELU): the clamp is fused into the activation operator before that one is converted to a lookup table and the conversion then loses the table (the LUT is still DMAed but the operation runs with a plain clamp), so the activation function is not applied",
+    ctx=dict(requires_any=["RELU", "RELU6", "RELU_N1_TO_1"], requires_any2=["TANH", "LOGISTIC", "HARD_SWISH", "LEAKY_RELU"], max_layers=8),
+    sigs={"C01": ["value_mismatch"], "C10": ["value_mismatch"]}),
  "F09-odd-stripe-nearest-upscale": dict(
     what="a 2x nearest-neighbour upscaling step (RESIZE_NEAREST_NEIGHBOR lowered to pool operations) striped in a cascade with an odd OFM stripe height: IFM_HEIGHT0 is floor(h/2) although ceil(h/2)+ rows are fetched, so the last row comes through an unused tile base (address 0)",
-    ctx=dict(requires_layers=["RESIZE_NEAREST_NEIGHBOR"], max_layers=8, kind_any=["POOL/AVERAGE"]),
-    sigs={"C02": ["out_of_extent"], "C03": ["uninit_read", "foreign_read"], "C04": ["reads_from_divergence", "async_uninit_read"]}),
+    ctx=dict(requires_layers=["RESIZE_NEAREST_NEIGHBOR"], max_layers=8, kind_any=["POOL/AVERAGE", None]),
+    sigs={"C02": ["out_of_extent"], "C03": ["uninit_read", "foreign_read"], "C04": ["reads_from_divergence", "async_uninit_read"], "C01": VAL, "C10": VAL}),
 }
 FIXED = [
  "fixed: property=C13 54fac24 every network with weights aborted with OverflowError (int32 memory histogram minus 1<<32 under NumPy 2), live_range.py:149 / scheduler.py:667",
@@ -49,6 +80,7 @@ FIXED = [
  "fixed: property=C14 6b67d8d main(A);main(B) / convert(A);convert(B) in one process died with AssertionError 'Two different addresses cannot be assigned to the same tensor' when A and B share a LUT, and main(A);main(A) produced a different output file (MEAN / TANH / RESIZE_BILINEAR network): TensorAddressMap, lru-cached equivalence ids and CompressedWeightCache survived a compilation",
  "fixed: property=C18 651e96b '--config Arm/vela.ini' (documented example) rejected with 'Section ... not found' unless the working directory contains Arm/vela.ini; a decoy Arm/vela.ini in the working directory was used instead of the bundled one (vela.py passed args.config instead of the resolved paths)",
  "fixed: property=C18 4b72eeb arena_cache_size of the selected memory mode ignored (option default 393216 always 'overrode' the file; out-of-range file values accepted silently)",
+ "fixed: property=C01 ab37afd a slice of a slice (STRIDED_SLICE ; STRIDED_SLICE ; any NPU consumer, or SPLIT output sliced again) lost one of the two read offsets/shapes: move_splitsliceread_to_consumer overwrote the consumer's own read offset, so the consumer read the wrong window and depth (conv weights encoded for 6 input channels while IFM_DEPTH said 28) (findings/FX-slice-of-slice.C01.json)",
  "fixed: property=C12 3e245fc elementwise operator executed in place over an NPU-subgraph input (produced by a CPU operator) that a later subgraph still reads: CONV_2D(stride 4, CPU) -> MINIMUM(NPU) -> CUSTOM(CPU) ; RELU of the conv output in a second NPU subgraph (findings/F05-inplace-elementwise-shared-input.C12.json)",
 ]
 EXTRA = [
